@@ -69,6 +69,10 @@ Mismatch(line, pre, post, exp) ==
                IF exp.W.groups[g].ctl # post.groups[g].ctl THEN "post.ctl" ELSE "ok",
                IF exp.W.groups[g].accepted # post.groups[g].accepted THEN "post.accepted" ELSE "ok",
                IF exp.W.groups[g].tries # post.groups[g].tries THEN "post.tries" ELSE "ok",
+               IF "gauges" \in DOMAIN line /\ g \in DOMAIN line.gauges /\ line.gauges[g].nAll >= 0 /\ exp.res[g].counts.all >= 0
+                  /\ <<line.gauges[g].nAll, line.gauges[g].nCord, line.gauges[g].nUnt, line.gauges[g].nTaint, line.gauges[g].nForce, line.gauges[g].nPods>>
+                     # <<exp.res[g].counts.all, exp.res[g].counts.cord, exp.res[g].counts.unt, exp.res[g].counts.taint, exp.res[g].counts.force, exp.res[g].counts.pods>>
+                 THEN "gauges.counts" ELSE "ok",
                IF ~(exp.res[g].lookReq \subseteq ToSet(line.lookups[g]) /\ ToSet(line.lookups[g]) \subseteq exp.res[g].lookMay)
                  THEN "lookups" ELSE "ok"} : g \in gs}
   IN (IF ~exp.valid THEN {"choice-not-admissible"} ELSE {})
